@@ -47,8 +47,10 @@ def plan_C15(tier, seed):
                 "return case [x mutate]) for or_parse, or_always_parse, or_give_up, optional, matches, and_then, and_also, "
                 "and_do, map, map_err, err_into, From<Result> and ResultExt::{err_into,and_also,and_do}, plus the closure-taking "
                 "combinators once more with a zero-sized value type (); the whole table is instantiated for several shapes of the "
-                "value/error types - eight - (4-byte; odd-sized (u32,(u8,u16)); 136-byte and 328-byte arrays, i.e. Parsed larger than 128 "
-                "bytes; String and Box payloads with drop glue; u128 and #[repr(align(64))] payloads, i.e. over-aligned) - generic code can differ between instantiations only "
+                "value/error types - thirteen - (4-byte; odd-sized (u32,(u8,u16)); 136-byte and 328-byte arrays, i.e. Parsed larger than 128 "
+                "bytes; String and Box payloads with drop glue; u128 and #[repr(align(64))] payloads, i.e. over-aligned; five more where the types that map / "
+                "and_then / err_into / map_err convert TO differ in size from the ones they convert FROM: widening 4->16, 16->32, "
+                "16->136 bytes, narrowing 136->4, plain -> String) - generic code can differ between instantiations only "
                 "through such type intrinsics; payload integrity is part of the compared rendering; each cell compares "
                 "returned value (identity-tagged), closure invocation count and received argument with a table written from "
                 "the documentation. Cases k>=1 enumerate all token strings of length k-1 over {a,b,c,d,e,z} through a composed "
@@ -58,7 +60,7 @@ def plan_C15(tier, seed):
         "jobs": jobs,
         "primary_jobs": ["table-chk"],
         "eval_counters": ["cells", "grammar_strings"],
-        "floors": {"cells": 2 * 8 * 92, "shapes": 2 * 8, "distinct_nontrivial": 8 * 92},
+        "floors": {"cells": 2 * 13 * 92, "shapes": 2 * 13, "distinct_nontrivial": 13 * 92},
         "assumptions": ["the specification table in harness/src/c15.rs is written from the rustdoc of flussab::Parsed/ResultExt"],
     }
 
@@ -83,7 +85,8 @@ def plan_C16(tier, seed):
                 "{tabs_or_spaces,newline,next_newline} and fixed(p) for p in {empty, every prefix up to 5 bytes of the rest, "
                 "the same with last/first byte mutated, rest+'a', rest+CRLF}, each with a fresh reader under 1-byte reads and "
                 "chunk size 1 (plus once with pre-buffered data and an advanced cursor, and once on a reader that has already "
-                "seen the end of input because an earlier request went past it); checked: returned offset == "
+                "seen the end of input because an earlier request went past it; and at start offsets usize::MAX, MAX-1, MAX-2, "
+                "MAX-8, 2^63, 2^32+1, where nothing is and the offset must come back unchanged); checked: returned offset == "
                 "reference, position unchanged, bytes delivered by the source == max(delivered before, last index the "
                 "reference must inspect + 1), read calls <= needed. sampled: random strings up to 19000 bytes, random "
                 "offsets/patterns/chunk sizes/schedules (fixed, one-shot, random with Interrupted, two-part split); checked: "
@@ -99,6 +102,7 @@ def plan_C16(tier, seed):
         "eval_counters": ["evals_strict", "evals_loose"],
         "floors": {"evals_strict": q(tier, 20_000_000, 1_000_000_000), "evals_loose": q(tier, 100_000, 5_000_000),
                    "words": 2 * 6 ** 8, "evals_on_reader_that_has_seen_the_end": 1_000_000,
+                   "evals_at_offsets_near_usize_max": 10_000,
                    "distinct_nontrivial": 100_000},
         "assumptions": ["reference semantics of the four helpers are taken from their rustdoc in flussab/src/text.rs"],
     }
@@ -130,7 +134,8 @@ def plan_C13(tier, seed):
                 "boundary: per integer type (i8..i128,isize,u8..u128,usize) MIN, MAX, +-1 around them, 10^k+-1, 1..60 digits, "
                 "0..30 leading zeros, '-0', lone '-', random digit-biased bytes; all four scanners; every amount 0..24 of "
                 "buffered bytes (selects fast/cold path; the bytes behind the valid window are stale digits), scans starting "
-                "0..12 bytes into the stream, and four reader states: 1-byte reads / the same with the end of input already "
+                "0..12 bytes into the stream or at usize::MAX-k (k in 0,1,3,7,8,9,15,16; nothing is there: value 0, offset "
+                "unchanged - D15), and four reader states: 1-byte reads / the same with the end of input already "
                 "seen (an earlier request went past it) / everything from one read / one read and end seen. Oracle: "
                 "decimal-string reference (no machine arithmetic): Some(v) iff representable and v exact, offset = end of "
                 "the run, lone '-' not consumed, position unchanged, multi == simple. Non-trivial = at least one byte is "
@@ -141,7 +146,8 @@ def plan_C13(tier, seed):
         "primary_jobs": ["kernel-rel", "lanes-chk", "boundary-chk"],
         "eval_counters": ["kernel_evals", "evals"],
         "floors": {"kernel_evals": q(tier, 10_000_000, 1_000_000_000), "evals": q(tier, 1_000_000, 50_000_000),
-                   "evals_on_reader_that_has_seen_the_end": 100_000, "distinct_nontrivial": 100_000},
+                   "evals_on_reader_that_has_seen_the_end": 100_000, "evals_at_offsets_near_usize_max": 10_000,
+                   "distinct_nontrivial": 100_000},
         "assumptions": ["signed scanners are also exercised with unsigned target types (property quantifies over all twelve types)"],
     }
 
@@ -163,7 +169,7 @@ def plan_C02(tier, seed):
                 "short -, "
                 "request_more, advance(n), advance_with_buf(n), unsafe advance_unchecked(n <= buf_len, its contract), set_mark, set_mark_to_position(p incl. near usize::MAX), "
                 "set_chunk_size(1..65536), check_io_error) on a bare DeferredReader built via from_read / from_boxed_dyn_read / "
-                "from_buf_reader(empty and partly consumed BufReader with capacities 2..200 and 4096..70000, the latter "
+                "from_buf_reader(empty - capacity 0 included - and partly consumed BufReader with capacities 2..200 and 4096..70000, the latter "
                 "holding more than one default chunk on long one-shot streams), over position-identifying zero-free streams of 0..1 MiB "
                 "delivered under one-shot, fixed-k, two-part, random and random+Interrupted schedules (one history in ten with a "
                 "storm of 127..1000 consecutive Interrupted results) ending in EOF, early EOF "
@@ -202,7 +208,8 @@ def plan_C11(tier, seed):
                 "values, buf_write_ptr(n)+advance_unchecked(m<=n), flush, flush_defer_err, check_io_error, drop; plus boundary "
                 "pairs: fill the buffer so that exactly s in 0..45 bytes are spare, then write a maximal-length integer of a "
                 "random type / a slice of s-1..s+1 bytes / buf_write_ptr(s-1..s+1)) on a real "
-                "DeferredWriter (injected sink errors draw their ErrorKind from 19 non-Interrupted kinds). Each history runs once over a non-failing sink (accept-all / short writes / short+Interrupted) "
+                "DeferredWriter (the sink also implements write_vectored with writev semantics - one call may take bytes from "
+                "several slices and stop anywhere -; injected sink errors draw their ErrorKind from 19 non-Interrupted kinds). Each history runs once over a non-failing sink (accept-all / short writes / short+Interrupted) "
                 "and then once per sink write call j that occurred (all j up to 24, sampled beyond) with the sink failing (or "
                 "returning Ok(0)) at call j, sometimes with a second failure later. Judged after every operation from the "
                 "merged client/sink log: non-failing - sink contents are always a prefix of the written stream and equal to "
@@ -539,7 +546,7 @@ def plan_C03(tier, seed):
                "aiger_section_skipping_roundtrips": 50_000, "btor_documents_also_through_display": 20_000,
                "choice:clause_with_more_than_4096_literals": 200, "choice:btor_justice_with_more_than_4096_nodes": 30,
                "choice:btor_constant_with_more_than_4096_digits": 30, "choice:btor_symbol_longer_than_chunk": 30,
-               "choice:btor_comment_longer_than_chunk": 30,
+               "choice:btor_comment_longer_than_chunk": 30, "btor_const_candidates_with_non_ascii_characters": 1000,
                "distinct_nontrivial": q(tier, 400_000, 10_000_000)})
     for k in range(1, 11):
         fl["choice:varint_len:%d" % k] = 50
@@ -571,7 +578,9 @@ def plan_C03(tier, seed):
                 "comments longer than 16 KiB, symbols of every kind at index 0/count-1/random, arbitrary UTF-8 names and comments, "
                 "trailing-zero header fields, delta codes of every 7-bit length 1..10 (huge input counts), gate inputs given "
                 "in either order; BTOR2 lines of every operator / sort / output kind with ids up to u64::MAX, constants built "
-                "through the validating TryFrom constructors from candidate strings that also contain non-digits or are empty; "
+                "through the validating TryFrom constructors from candidate strings that also contain non-digits, characters "
+                "that are digits or numeric only for Unicode (Arabic-Indic, fullwidth, superscript, Roman numeral, "
+                "mathematical) or are empty; "
                 "OrderedAig additionally converted with Aig::from and written by write_aig; BTOR2 lines additionally rendered "
                 "with Display (UTF-8 documents); every AIGER document additionally (1/2) read through the section readers "
                 "moving on before a section is exhausted (none / one entry taken): the entries handed out are the written "
@@ -590,6 +599,9 @@ def plan_C10(tier, seed):
     jobs = [
         Job("stream-rel", "rel", "c10", 192, {"mib": mib}, crash_is_violation=True, wall_limit=7200),
         Job("stream-chk", "chk", "c10", 192, {"mib": q(tier, 8, 64)}, crash_is_violation=True, wall_limit=7200),
+        # solver logs: the result (status + a short assignment) is tiny, the bytes are comments / ignored lines
+        Job("log-rel", "rel", "c10", 48, {"mib": q(tier, 32, 256), "log": 1}, crash_is_violation=True, wall_limit=7200),
+        Job("log-chk", "chk", "c10", 48, {"mib": q(tier, 8, 64), "log": 1}, crash_is_violation=True, wall_limit=7200),
     ]
     if tier == "thorough":
         jobs.append(Job("stream-1g", "rel", "c10", 24, {"mib": 1024}, crash_is_violation=True, wall_limit=7200))
@@ -611,11 +623,16 @@ def plan_C10(tier, seed):
                 "and is about twice what the pinned tree needs (4*chunk + <300 B; 2*item for the big comment). Evidence also "
                 "records the peak after the first half of the items and the live heap at the end (plateau, not judged). Every "
                 "configuration is distinct and non-trivial (each streams at least 4x, all-small profiles at least 100x, its "
-                "bound)." % mib,
+                "bound). Solver logs are streamed the same way in a grid of their own (3 line mixes: comment lines in strict "
+                "mode / one run of lines to be ignored and blank lines / comments, ignored lines, blank lines and a value line "
+                "every 70000 lines - x 4 chunk sizes x 4 read sizes): the result, status plus at most 83 literals, is the "
+                "only item." % mib,
         "jobs": jobs, "primary_jobs": ["stream-rel"], "eval_counters": ["streams"],
-        "floors": dict({"streams": 2 * 192, "streams_100x_bound": 150, "items": q(tier, 500_000_000, 4_000_000_000),
+        "floors": dict({"streams": 2 * 192 + 2 * 48, "log_streams": 2 * 48, "streams_100x_bound": 150, "items": q(tier, 500_000_000, 4_000_000_000),
                         "distinct_nontrivial": 150},
                        **{"btor_profile:%d" % k: 16 for k in range(3)},
+                       **{"log_profile:" + k: 32 for k in ["comment_lines_strict", "run_of_ignored_lines",
+                                                            "mixed_with_value_lines"]},
                        **{"dimacs_profile:" + k: 40 for k in ["clauses_only", "declared_count_then_comment_tail",
                                                                "comment_prelude_before_header",
                                                                "split_clauses_and_comment_blocks"]},
